@@ -100,8 +100,8 @@ def main():
         for r in sorted({ploidy, *M.haploid_candidates(ploidy)}):
             lo = [min(M.threshold_cn_strict(v, DEFAULT, r, ploidy)) for v in lattice]
             hi = [max(M.threshold_cn_strict(v, DEFAULT, r, ploidy)) for v in lattice]
-            # both the lowest and the highest accepted reading are non-decreasing (ploidy >= 2); for ploidy 1 with r = 1 both drop 3 -> 2
-            mono = all(a <= b for a, b in zip(lo, lo[1:])) and all(a <= b for a, b in zip(hi, hi[1:]))
+            # the lowest accepted reading is non-decreasing and the open zone is one unit wide for ploidy >= 2; for ploidy 1 with r = 1 it drops 3 -> 2
+            mono = all(a <= b for a, b in zip(lo, lo[1:])) and all(h - l <= 1 for l, h in zip(lo, hi))
             if ploidy == 1 and r == 1:
                 assert not mono and 3 in lo and any(a == 3 and b == 2 for a, b in zip(lo, lo[1:])), "ploidy 1: 3 on (0.2, 0.7] then ceil(2^log2) = 2"
             else:
